@@ -283,7 +283,11 @@ class BVDomain:
             if dt is np.bool_:
                 return np.bool_(v)
             return np.array(int(v)).astype(dt)[()] if np.dtype(dt).kind in 'iu' else dt(v)
-        if isinstance(v, (float, np.floating)) and np.dtype(dt).kind == 'f':
+        if isinstance(v, (float, np.floating)) and np.dtype(dt).kind in 'fc':
+            return dt(v)
+        if isinstance(v, (complex, np.complexfloating)) and np.dtype(dt).kind == 'c':
+            return dt(v)
+        if isinstance(v, (int, np.integer)) and np.dtype(dt).kind in 'fc':
             return dt(v)
         raise Unsupported(f'element {type(v).__name__} in BV array of dtype {np.dtype(dt).name}')
 
@@ -318,6 +322,10 @@ class BVDomain:
             return np.bool_
         ds = [self._decl(x) for x in inputs]
         strong = [d for d in ds if d is not None]
+        if any(isinstance(x, complex) for x in inputs):
+            strong.append(np.dtype(np.complex128))
+        elif any(isinstance(x, float) for x in inputs):
+            strong.append(np.dtype(np.float64))
         if not strong:
             return np.int64
         return np.result_type(*strong).type
@@ -336,6 +344,9 @@ class BVDomain:
                 r = np.frompyfunc(B.neg, 1, 1)(*ins)
             elif ufunc is np.positive:
                 r = ins[0]
+            elif ufunc is np.power:
+                # symbolic exponent of a concrete base: fork over the (bounded) exponent values
+                r = np.frompyfunc(lambda a, b: a ** (int(b) if isinstance(b, (B.BV, B.SB)) else b), 2, 1)(*ins)
             else:
                 raise Unsupported(f'ufunc {ufunc.__name__} in BV domain')
         elif method == 'reduce' and ufunc in (np.add, np.multiply, np.logical_and, np.logical_or, np.bitwise_xor):
@@ -556,6 +567,8 @@ class NPShim(types.ModuleType):
         return getattr(np, k)
 
     def _mk(self, a, dtype=None):
+        if a.dtype.kind not in 'iubfc':
+            return a            # strings etc. stay native
         dt = np.dtype(dtype).type if dtype is not None else a.dtype.type
         return SymArray(a.astype(object), dt, self._dom)
 
